@@ -772,6 +772,33 @@ func (w *aWorld) opMutate(op Op) {
 			w.violate("C17", "action-not-carried-out", "%s %s: no POST %s (upstream POSTs seen: %v, expected %v)", method, path, p, keysOf(posted), want)
 			return
 		}
+		// ... and on the object that was named: the upstream must have received exactly that topic / channel
+		for _, q := range reqs {
+			if q.method != "POST" || q.path != p {
+				continue
+			}
+			args, err := url.ParseQuery(q.query)
+			if err != nil {
+				w.violate("C17", "action-on-wrong-object", "%s %s: upstream POST %s carried an unparsable query %q", method, path, p, q.query)
+				return
+			}
+			if got := args.Get("topic"); got != t {
+				w.violate("C17", "action-on-wrong-object", "%s %s: upstream POST %s?%s names topic %q, the action was for %q", method, path, p, q.query, got, t)
+				return
+			}
+			if strings.Contains(p, "/channel/") {
+				if got := args.Get("channel"); got != ch {
+					w.violate("C17", "action-on-wrong-object", "%s %s: upstream POST %s?%s names channel %q, the action was for %q", method, path, p, q.query, got, ch)
+					return
+				}
+			}
+			if strings.HasSuffix(p, "/topic/tombstone") {
+				if got := args.Get("node"); got != node.addr {
+					w.violate("C17", "action-on-wrong-object", "%s %s: upstream POST %s?%s names node %q, the action was for %q", method, path, p, q.query, got, node.addr)
+					return
+				}
+			}
+		}
 	}
 	rc.Probe("fanout_checked")
 }
